@@ -84,6 +84,17 @@ fn steps_for(s: &str) -> usize {
     }
 }
 
+/// conflict-template job (campaign policy 254): 4 actors on one hot path, then *all* delivery orders of the
+/// resulting 3-7 ops under `disc` (after all causal orders, which fill the reference table)
+fn template_job(sut: &'static str, monitors: u32, disc: Delivery, anyk: bool, n: u64) -> Job {
+    let mut c = Cfg::base(4, 0, Delivery::Causal, monitors);
+    c.nobs = 1;
+    c.anyk = anyk;
+    c.policy = 254;
+    let swp = Sweep { next: 40, disc, causal_ref: 10, exhaustive_upto: 6, merges: false };
+    job(sut, "conflict template (writers / nested remover / outer remover on one path), every delivery order", c, Some(swp), n)
+}
+
 fn job(sut: &'static str, label: &'static str, cfg: Cfg, sweep: Option<Sweep>, n: u64) -> Job {
     Job { sut, cfg, sweep, n, label }
 }
@@ -104,6 +115,9 @@ pub fn jobs_for(prop: &str, thorough: bool) -> Vec<Job> {
                 c4.nrep = 4;
                 c4.nsteps = 20;
                 js.push(job(s, "4 replicas", c4, sw(12, Delivery::Causal, 0), 500));
+            }
+            for s in ["OS", "MO", "MM", "MMO", "MMM"] {
+                js.push(template_job(s, mon::CONV, Delivery::Causal, false, 400));
             }
         }
         "C02" => {
@@ -164,6 +178,7 @@ pub fn jobs_for(prop: &str, thorough: bool) -> Vec<Job> {
             let mut swp = sw(12, Delivery::Fifo, 2).unwrap();
             swp.merges = true;
             js.push(job("OS", "observer sweep along adversarial FIFO extensions, model at every K", c, Some(swp), 2500));
+            js.push(template_job("OS", mon::SPEC | mon::CTX, Delivery::Fifo, true, 600));
         }
         "C05" => {
             let mut ms = MAPS.to_vec();
@@ -191,6 +206,7 @@ pub fn jobs_for(prop: &str, thorough: bool) -> Vec<Job> {
                 let mut swp = sw(10, Delivery::Fifo, 2).unwrap();
                 swp.merges = true;
                 js.push(job(s, "observer sweep along adversarial FIFO extensions, model at every K", c, Some(swp), 1200));
+                js.push(template_job(s, mon::SPEC, Delivery::Fifo, true, if s.len() == 3 { 3000 } else { 1000 }));
             }
         }
         "C06" => {
@@ -230,6 +246,7 @@ pub fn jobs_for(prop: &str, thorough: bool) -> Vec<Job> {
                     let mut swp = sw(10, Delivery::Fifo, 2).unwrap();
                     swp.merges = true;
                     js.push(job(s, "observer sweep along adversarial FIFO extensions", c, Some(swp), 800));
+                    js.push(template_job(s, mon::CTX, Delivery::Fifo, !MAPS.contains(&s), 300));
                 }
             }
         }
@@ -252,6 +269,14 @@ pub fn jobs_for(prop: &str, thorough: bool) -> Vec<Job> {
                 c2.dups = true;
                 c2.policy = 255;
                 js.push(job(s, "authoring under the weak discipline + merges; causal observers as reference", c2, sw(6, Delivery::Causal, 0), 1500));
+                if ["MMO", "MMM", "MO", "MM", "OS"].contains(&s) {
+                    js.push(template_job(s, mon::CONV | mon::SPEC, Delivery::Fifo, false, if s.len() == 3 { 4000 } else { 1500 }));
+                    // four actors: holder, second writer, inner remover and outer remover can all be distinct
+                    let mut c4 = c;
+                    c4.nrep = 4;
+                    c4.nsteps = 16;
+                    js.push(job(s, "4 actors: observer sweep, non-causal extensions vs causal reference", c4, Some(swp), 800));
+                }
             }
         }
         "C09" => {
@@ -393,6 +418,9 @@ pub fn jobs_for(prop: &str, thorough: bool) -> Vec<Job> {
                 c.dups = true;
                 c.policy = 255;
                 js.push(job(s, "causal cut sweep: equal K => ==, closed K => no residue", c, sw(16, Delivery::Causal, 0), 1500));
+                if ["OS", "MO", "MM", "MMO", "MMM"].contains(&s) {
+                    js.push(template_job(s, mon::EQ | mon::RESIDUE, Delivery::Causal, false, 300));
+                }
                 if has_merge(s) {
                     let mut c2 = Cfg::base(3, 16, weakest(s), mon::EQ | mon::RESIDUE);
                     c2.nobs = 1;
